@@ -159,6 +159,7 @@ type abciDriver struct {
 	passed       int
 	sigData      int
 	zeroStart    int
+	multiMsgTxs, feeTxs, tightGasTxs, aminoTxs int
 	// afterBegin, when set, runs once on the open block's state right after BeginBlock
 	afterBegin func(c *Chain)
 }
@@ -367,6 +368,39 @@ func (d *abciDriver) genTx(label string) plannedTx {
 	return plannedTx{owner, []sdk.Msg{&vestingtypes.MsgWithdrawAllAvailable{Owner: owner.Addr.String()}}, "cfevesting", "withdraw", nil}
 }
 
+// shapeTx draws how the client wraps the generated messages into a transaction: a second generated
+// message of the same signer in the same transaction, a fee (which the ante handler moves to the fee
+// collector, from where the distributor takes it), a gas limit that may be too low, amino JSON signing.
+func (d *abciDriver) shapeTx(label string, p *plannedTx) (o TxOpts) {
+	t := d.t
+	if rapid.IntRange(0, 3).Draw(t, label+"_secondMsg") == 0 {
+		if q := d.genTx(label + "_m2"); q.raw == nil && q.signer.Addr.Equals(p.signer.Addr) && q.module != "gov" && p.module != "gov" {
+			p.msgs = append(p.msgs, q.msgs...)
+			p.what += "+" + q.what
+			d.multiMsgTxs++
+		}
+	}
+	switch rapid.IntRange(0, 5).Draw(t, label+"_fee") {
+	case 0:
+		o.Fee = sdk.NewCoins(sdk.NewInt64Coin(Denom, int64(rapid.IntRange(1, 5_000_000).Draw(t, label+"_feeAmt"))))
+		d.feeTxs++
+	case 1:
+		if d.gen.SecondDenom || d.gen.VestingDenom != "" {
+			o.Fee = sdk.NewCoins(sdk.NewInt64Coin("uatom", int64(rapid.IntRange(1, 5000).Draw(t, label+"_feeAmt2"))), sdk.NewInt64Coin(Denom, 2000))
+			d.feeTxs++
+		}
+	}
+	if rapid.IntRange(0, 3).Draw(t, label+"_gas") == 0 {
+		o.Gas = []uint64{50_000, 70_000, 90_000, 110_000, 140_000, 200_000}[rapid.IntRange(0, 5).Draw(t, label+"_gasLimit")]
+		d.tightGasTxs++
+	}
+	if rapid.IntRange(0, 4).Draw(t, label+"_amino") == 0 {
+		o.Amino = true
+		d.aminoTxs++
+	}
+	return o
+}
+
 var abciDts = []int64{secNs, 5 * secNs, 11 * secNs, 60 * secNs, dayNs, 30 * dayNs}
 
 // genBlock generates and executes one block on d.c, returns its trace.
@@ -408,9 +442,13 @@ func (d *abciDriver) genBlock(label string) BlockTrace {
 		} else {
 			p = d.genTx(fmt.Sprintf("%s_tx%d", label, i-len(scripted)))
 		}
+		var opts TxOpts // what the client chose: gas limit, fee, sign mode (zero value: 20M gas, no fee, SIGN_MODE_DIRECT)
+		if i >= len(scripted) && p.raw == nil {
+			opts = d.shapeTx(fmt.Sprintf("%s_tx%d", label, i-len(scripted)), &p)
+		}
 		bz := p.raw
 		if bz == nil {
-			bz = d.c.BuildTx(p.signer, p.msgs...)
+			bz = d.c.BuildTxWith(p.signer, opts, p.msgs...)
 		}
 		r := d.c.Deliver(&bt, bz)
 		cb.Txs = append(cb.Txs, base64.StdEncoding.EncodeToString(bz))
@@ -452,4 +490,21 @@ func shortLog(r abci.ResponseDeliverTx) string {
 		return r.Log[:120]
 	}
 	return r.Log
+}
+
+// txShapeClasses names the transaction shapes a history contained (evidence class histogram).
+func (d *abciDriver) txShapeClasses() (cl []string) {
+	if d.multiMsgTxs > 0 {
+		cl = append(cl, "tx_with_two_generated_messages")
+	}
+	if d.feeTxs > 0 {
+		cl = append(cl, "tx_paying_a_fee")
+	}
+	if d.tightGasTxs > 0 {
+		cl = append(cl, "tx_with_a_tight_gas_limit")
+	}
+	if d.aminoTxs > 0 {
+		cl = append(cl, "tx_signed_in_amino_json_mode")
+	}
+	return cl
 }
